@@ -252,7 +252,7 @@ def pairs():
     if TIER == "thorough":
         add(spec("GolayCodeEncoder"), "syndrome", ml=False, max_paths=5000, stretch=True)
         add(spec("BCHCodeEncoder", mu=4, delta=7), "syndrome", ml=True, stretch=True)
-        add(spec("BCHCodeEncoder", mu=4, delta=7), "ml", ml=True)
+        add(spec("BCHCodeEncoder", mu=4, delta=7), "ml", ml=True, stretch=True)
         add(spec("BCHCodeEncoder", mu=4, delta=5), "ml", ml=True, stretch=True)
     # the encoders' own correcting inverses
     for s in ham:
